@@ -10,6 +10,9 @@ def register(prop, J):
          jobs=[
              J("errors-v2", "v2", "resprops", "^TestC08", checks=(6000, 3000000), shards=(4, 16), prepare="prepare_resources",
                extra_pkgs=["dyn", "gendrv"], timeout=(1200, 3000)),
+             # (appended after the v2 job: the position of a job determines its derived seeds)
+             J("errors-v1", "v1", "resprops", "^TestC08", checks=(4000, 1500000), shards=(4, 16), prepare="prepare_resources",
+               extra_pkgs=["dyn", "gendrv"], timeout=(1200, 3000)),
          ],
          level_text="generated (method, outcome) pairs through generated bindings over HTTP wire bytes against the propagation table "
                     "of the property: client error equals the resource's error response field by field, HTTP status and error header, "
